@@ -445,6 +445,66 @@ theorem interpolate_independent_of_history {β : Type} [OfNat β 0]
   rw [(interpolate_stages_requested_property arrays1 p1 temp1 hist1 env prop h1).2 o ho,
     (interpolate_stages_requested_property arrays2 p2 temp2 hist2 env prop h2).2 o (hsame ▸ ho)]
 
+/-! ## the value returned at index `idx` belongs to the `idx`-th target point
+
+`value p` stands for what the evaluator leaves for a target particle at position
+`p` (any of the five methods, any component of order1: e.g.
+`fun p => shepard tol (nbrs p)`); the coordinate arrays are arbitrary numpy views
+(any shape, any strides, any offset into any buffer: C ordered, Fortran ordered,
+transposed, sliced, reversed). -/
+
+/-- **`interpolate(...)[idx]` is the method's value at `(x[idx], y[idx], z[idx])`**,
+for every shape and every valid multi-index, whatever the memory layout of the
+three coordinate arrays (before the final `squeeze`). -/
+theorem result_index_matches_point {β γ : Type} [OfNat β 0] (value : Pos β → γ)
+    (x y z : NdView β) (hy : y.shape = x.shape) (hz : z.shape = x.shape)
+    (idx : List Nat) (hidx : inBounds x.shape idx = true) :
+    interpolateGet value x y z idx = some (value ⟨x.elem idx, y.elem idx, z.elem idx⟩) := by
+  have hk := ravelIndex_lt x.shape idx hidx
+  simp only [interpolateGet, reshapedGet, List.getElem?_map,
+    getElem?_targetPoints x y z hy hz _ hk, unravel_ravelIndex x.shape idx hidx, Option.map_some]
+
+/-- The same for the array `interpolate` actually returns (`result.squeeze()`):
+its entry `idx'` is the method's value at the point `x[idx]` where `idx` is `idx'`
+with zeros inserted at the axes of length 1 — the element `x.squeeze()[idx']`
+(`self.x`). -/
+theorem squeezed_result_index_matches_point {β γ : Type} [OfNat β 0] (value : Pos β → γ)
+    (x y z : NdView β) (hy : y.shape = x.shape) (hz : z.shape = x.shape)
+    (idx' : List Nat) (hidx : inBounds (squeezeShape x.shape) idx' = true) :
+    inBounds x.shape (unsqueeze x.shape idx') = true ∧
+    interpolateSqueezedGet value x y z idx' =
+      some (value ⟨x.elem (unsqueeze x.shape idx'), y.elem (unsqueeze x.shape idx'),
+                   z.elem (unsqueeze x.shape idx')⟩) ∧
+    ravelIndex x.shape (unsqueeze x.shape idx') = ravelIndex (squeezeShape x.shape) idx' := by
+  have hb := inBounds_unsqueeze x.shape idx' hidx
+  exact ⟨hb, result_index_matches_point value x y z hy hz _ hb,
+    ravelIndex_unsqueeze x.shape idx' hidx⟩
+
+/-- Nothing is lost or duplicated: multi-indices and target particles correspond
+one to one (`unravel`/`ravelIndex` are mutually inverse on valid arguments), and
+the value computed for the `k`-th target particle is returned at index
+`unravel shape k`. -/
+theorem every_target_particle_is_returned {β γ : Type} [OfNat β 0] (value : Pos β → γ)
+    (x y z : NdView β) (k : Nat) (hk : k < size x.shape) :
+    inBounds x.shape (unravel x.shape k) = true ∧
+    ravelIndex x.shape (unravel x.shape k) = k ∧
+    interpolateGet value x y z (unravel x.shape k) = ((targetPoints x y z).map value)[k]? := by
+  refine ⟨inBounds_unravel _ _ hk, ravelIndex_unravel _ _ hk, ?_⟩
+  simp only [interpolateGet, reshapedGet, ravelIndex_unravel _ _ hk]
+
+/-- The target particles depend on the LOGICAL contents of the coordinate arrays
+only: two arrays of the same shape with the same elements (a Fortran-ordered
+array and its C-ordered copy, a strided view and its contiguous copy) give the
+same particles in the same order. -/
+theorem target_points_independent_of_layout {β : Type} [OfNat β 0] (x x' : NdView β)
+    (hs : x'.shape = x.shape)
+    (he : ∀ idx, inBounds x.shape idx = true → x'.elem idx = x.elem idx) :
+    ravelC x' = ravelC x := by
+  simp only [ravelC, hs]
+  apply List.map_congr_left
+  intro k hk
+  exact he _ (inBounds_unravel _ _ (List.mem_range.mp hk))
+
 /-! ## non-vacuity: concrete neighbour lists / histories meeting the hypotheses -/
 
 /-- fluid (object 1: `p`, `T`) and solid (object 2: `p` only, arriving with a used
@@ -492,5 +552,30 @@ example :
     interpolateReads (run (init [1, 2] 3) (ops ++ [Op.update])) =
       ⟨[5, 6], [5, 6, 9], [5, 6, 9], 9, true⟩ := by
   constructor <;> decide +kernel
+
+/-- a 2×3 array held in Fortran order (strides 1, 2: the transposed view of a
+C-ordered 3×2 array) next to a C-ordered `y` and a strided, reversed `z`:
+`ravel()` lists the elements in logical order and `result[0, 2]`, `result[1, 0]`
+are the values at `(x[0,2], y[0,2], z[0,2])`, `(x[1,0], y[1,0], z[1,0])`; the
+memory order of `x` (10, 11, 12, …) is NOT the order of the particles -/
+example :
+    let x : NdView ℚ := ⟨[2, 3], [1, 2], 0, [10, 11, 12, 13, 14, 15]⟩
+    let y : NdView ℚ := ⟨[2, 3], [3, 1], 0, [20, 21, 22, 23, 24, 25]⟩
+    let z : NdView ℚ := ⟨[2, 3], [-6, 2], 7, [30, 31, 32, 33, 34, 35, 36, 37, 38, 39, 40, 41]⟩
+    let value : Pos ℚ → ℚ := fun p => 10000 * p.x + 100 * p.y + p.z
+    ravelC x = [10, 12, 14, 11, 13, 15] ∧ ravelC z = [37, 39, 41, 31, 33, 35] ∧
+    x.elem [0, 2] = 14 ∧ y.elem [0, 2] = 22 ∧ z.elem [0, 2] = 41 ∧
+    interpolateGet value x y z [0, 2] = some 142241 ∧
+    interpolateGet value x y z [1, 0] = some 112331 ∧
+    inBounds x.shape [0, 2] = true := by
+  refine ⟨?_, ?_, ?_, ?_, ?_, ?_, ?_, ?_⟩ <;> decide +kernel
+
+/-- shape (1, 2, 1, 3): the returned array has shape (2, 3) and its entry
+`[1, 2]` is the value at `x[0, 1, 0, 2]` -/
+example :
+    let x : NdView ℚ := ⟨[1, 2, 1, 3], [0, 1, 0, 2], 0, [10, 11, 12, 13, 14, 15]⟩
+    squeezeShape x.shape = [2, 3] ∧ unsqueeze x.shape [1, 2] = [0, 1, 0, 2] ∧
+    interpolateSqueezedGet (fun p => p.x) x x x [1, 2] = some 15 ∧ x.elem [0, 1, 0, 2] = 15 := by
+  refine ⟨?_, ?_, ?_, ?_⟩ <;> decide +kernel
 
 end PysphVerif.C14
